@@ -80,6 +80,9 @@ def run_sync(b: Built, steps: List[dict]) -> List[Tuple[dict, list]]:
                 interp.start()
             elif st["op"] == "send":
                 interp.send(st["ev"])
+            elif st["op"] == "batch":
+                b.ctl.emit("batch", st["ev"], st["ev2"])
+                interp.send_events([st["ev"], st["ev2"]])
             elif st["op"] == "can":
                 r = interp.can(st["ev"])
                 b.ctl.emit("can", "T" if r else "F")
@@ -129,6 +132,9 @@ async def _run_async(b: Built, steps: List[dict]):
                 await interp.start()
             elif st["op"] == "send":
                 await interp.send(st["ev"])
+            elif st["op"] == "batch":
+                b.ctl.emit("batch", st["ev"], st["ev2"])
+                await interp.send_events([st["ev"], st["ev2"]])
             elif st["op"] == "can":
                 r = interp.can(st["ev"])
                 b.ctl.emit("can", "T" if r else "F")
